@@ -122,7 +122,61 @@ func c19Directed(idx int) *c19Scenario {
 	return s
 }
 
+// orderIndependent is a conservative structural test: with these scripts the victim's decisions cannot
+// depend on map-iteration order (sampling repetitions alone is not enough: an alternative outcome can
+// have a probability of ~1 %). Conditions per cycle: first-fit mode; at most one unscraped target that the
+// explorer calls healthy; a shard over a relief threshold reports at most one target; every shard but
+// the first reports at most one target (scale-down empties shards one target at a time).
+func orderIndependent(s *c19Scenario) bool {
+	if s.Opt.IdleMin == 0 {
+		return false
+	}
+	for _, rep := range s.V {
+		held := map[uint64]bool{}
+		for i, sh := range rep.Shards {
+			if sh.Ready && sh.StatusOK {
+				for h := range sh.Report {
+					held[h] = true
+				}
+			}
+			var head, proc int64
+			for _, t := range sh.Report {
+				head += t.Series
+				proc += t.Total
+			}
+			head += sh.HeadExtra
+			over := proc >= s.Opt.MaxProc || (s.Opt.MaxHead != 0 && float64(head) >= float64(s.Opt.MaxHead)*1.1-1)
+			if over && len(sh.Report) > 1 {
+				return false
+			}
+			if i > 0 && len(sh.Report) > 1 {
+				return false
+			}
+		}
+		floating := 0
+		for _, a := range s.Active {
+			e := s.Explore[a.Hash]
+			if !held[a.Hash] && e != nil && e.Health == "up" {
+				floating++
+			}
+		}
+		if floating > 1 {
+			return false
+		}
+	}
+	return true
+}
+
 func c19Random(r *core.Rng) *c19Scenario {
+	for try := 0; try < 200; try++ {
+		if s := c19RandomOnce(r); orderIndependent(s) {
+			return s
+		}
+	}
+	return c19Directed(r.Intn(c19NDirected))
+}
+
+func c19RandomOnce(r *core.Rng) *c19Scenario {
 	base := genRandom(r, genBias{unhealthyPer12: 2, maxShards: 3})
 	base.Opt.IdleMin = 30 // first-fit: the weighted random choice would make the victim's own outcome random
 	s := &c19Scenario{Name: "C19-random", Opt: base.Opt, Active: base.Active, Explore: base.Explore}
@@ -303,7 +357,7 @@ func init() {
 		ID:    "C19",
 		Level: "exploration",
 		Rule: "differential over the stub-cycle engine: scenario = options + discovery + explorer table + a victim replica scripted for 4-5 cycles + a hostile replica (shard listing fails, scaling fails early/late, entirely unready, out of sync, a different placement of the same targets incl. in-transfer copies with larger series than the explorer's estimate); " +
-			"the victim is run alone (4 repetitions; cases whose own outcome depends on map order are discarded and counted) and next to the hostile replica in both orders (3 repetitions each) through the real Coordinator.Run; the canonical per-cycle trace of everything the victim's shards and manager receive (GET/POST with target lists as sets, ChangeScale arguments) must be identical; " +
+			"the victim is run alone (4 repetitions; victim scripts are generated under structural conditions that make its decisions independent of map order (first-fit mode, at most one unscraped healthy target per cycle, overloaded or non-first shards report at most one target); cases that still show more than one outcome in 30 repetitions are discarded and counted) and next to the hostile replica in both orders (3 repetitions each) through the real Coordinator.Run; the canonical per-cycle trace of everything the victim's shards and manager receive (GET/POST with target lists as sets, ChangeScale arguments) must be identical; " +
 			"directed family: a target the victim cannot place in an early cycle and can place later while the other replica holds it in every state/series/health combination; non-trivial = case not discarded; distinct = victim script hash + hostile script hash",
 		Assumptions: []string{
 			"the explorer stub hands out one status object per target for the whole run, as Explore.Get does",
